@@ -13,6 +13,7 @@ import (
 	"encoding/binary"
 	"encoding/pem"
 	"fmt"
+	"github.com/ory/fosite/i18n"
 	"hash"
 	"io"
 	"os"
@@ -183,6 +184,11 @@ var Epoch = time.Date(2031, 3, 1, 0, 0, 0, 0, time.UTC)
 // Profile selects the configuration of a World.
 type Profile struct {
 	JWTAccess bool `json:"jwt_access,omitempty"`
+	// NoPARFactory: the provider is composed without the pushed-authorization endpoint handler (the instance of a
+	// split deployment that serves the authorization endpoint only; pushes are taken by another instance)
+	NoPARFactory bool `json:"no_par_factory,omitempty"`
+	// I18N: a message catalog (English + Spanish) is configured, error responses are localised
+	I18N bool `json:"i18n,omitempty"`
 	// StatelessJWTIntrospectionFirst registers the stateless JWT validator in front of the stateful one
 	StatelessJWTIntrospectionFirst bool `json:"stateless_jwt_introspection_first,omitempty"`
 	// StatelessJWTIntrospectionOnly: a resource-server style deployment, JWT access tokens judged by signature and claims only
@@ -364,6 +370,13 @@ func NewWorld(p Profile) *World {
 		cfg.JWKSFetcherStrategy = nil
 		cfg.HashCost = 4
 	}
+	if p.I18N {
+		cfg.MessageCatalog = i18n.NewDefaultMessageCatalog([]*i18n.DefaultLocaleBundle{
+			{LangTag: "en", Messages: []*i18n.DefaultMessage{{ID: "badRequestMethod", FormattedMessage: "HTTP method is '%s', expected 'POST'."}}},
+			{LangTag: "es", Messages: []*i18n.DefaultMessage{{ID: "badRequestMethod", FormattedMessage: "El método HTTP es '%s', esperado 'POST'."}, {ID: "The requested scope is invalid, unknown, or malformed.", FormattedMessage: "El ámbito solicitado no es válido."}}},
+			{LangTag: "de", Messages: []*i18n.DefaultMessage{{ID: "The resource owner or authorization server denied the request.", FormattedMessage: "Die Anfrage wurde abgelehnt."}}},
+		})
+	}
 	w.Cfg = cfg
 	w.Mem = storage.NewMemoryStore()
 	w.Store = NewProxyStore(w.Mem)
@@ -443,7 +456,10 @@ func NewWorld(p Profile) *World {
 		compose.OpenIDConnectDeviceFactory,
 	}
 	factories = append(factories, introspection...)
-	factories = append(factories, compose.OAuth2TokenRevocationFactory, compose.OAuth2PKCEFactory, compose.PushedAuthorizeHandlerFactory)
+	factories = append(factories, compose.OAuth2TokenRevocationFactory, compose.OAuth2PKCEFactory)
+	if !p.NoPARFactory {
+		factories = append(factories, compose.PushedAuthorizeHandlerFactory)
+	}
 	w.Prov = compose.Compose(cfg, st, strat, factories...)
 	w.Dev = compose.NewDeviceStrategy(cfg)
 	// default cast
